@@ -493,7 +493,7 @@ func c16GenFrames(g *G) {
 	}
 	// around a replaced connection: straight after the close, straight after the application's Reconnect
 	g.Emit("c16.run o,o g0;w1;!c-404;close;!c-429;!z0;g1;w2;a1;a0", tag)
-	g.Emit("c16.run o,o !c-404;u;!k9;X;!c-404;!z5;g1;w1;a1", tag)
+	g.Emit("c16.run o,o !c-404;u;W;!k9;s3000;X;!c-404;!z5;g1;w1;a1", tag)
 	var forty []string
 	for i := 0; i < 40; i++ {
 		forty = append(forty, "!c-429")
@@ -526,7 +526,7 @@ func c16GenFrames(g *G) {
 				plan = append(plan, ordinary[r.Intn(len(ordinary))])
 			case 1:
 				if r.Intn(3) == 0 {
-					plan = append(plan, []string{"close", "X"}[r.Intn(2)])
+					plan = append(plan, "close") // (not X: what is unread when the application reconnects is lost with the connection)
 				}
 				plan = append(plan, pick())
 			default:
